@@ -1152,8 +1152,14 @@ class World:
                 except Exception:
                     tw_ok = False
                 if tw_ok:
-                    self.flag("C09", "I3", "raises/origin=%s" % vent.meta.get("origin"),
-                              {"var": vent.name, "exc": got[1], "in": "history-solve"})
+                    det = {"var": vent.name, "exc": got[1], "in": "history-solve"}
+                    self.flag("C09", "I3", "raises/origin=%s" % vent.meta.get("origin"), det)
+                    # the same call on a fresh variable with the same visible state
+                    # succeeds: the step was not taken / the system was not solved
+                    self.flag("C04", "I5", "solve-raises/origin=%s" % vent.meta.get("origin"), det)
+                    if any(it[0] == "t" and "trans_model" in it[1].meta for it in items):
+                        self.flag("C12", "I6", "transient/step-raises/origin=%s"
+                                  % vent.meta.get("origin"), det)
         else:
             if twin is None and not degenerate:
                 self.flag("C09", "I3", "accepts-invalid/history-solve",
@@ -1385,8 +1391,10 @@ class World:
                 except Exception:
                     ok = False
                 if ok:
-                    self.flag("C09", "I3", "raises/origin=%s" % vent.meta.get("origin"),
-                              {"var": vent.name, "exc": got, "in": "history-explicit"})
+                    det = {"var": vent.name, "exc": got, "in": "history-explicit"}
+                    self.flag("C09", "I3", "raises/origin=%s" % vent.meta.get("origin"), det)
+                    self.flag("C12", "I6", "explicit/step-raises/origin=%s"
+                              % vent.meta.get("origin"), det)
             return
         if res is vent.obj:
             self.flag("C12", "I6", "explicit/returns-input", {"var": vent.name})
